@@ -340,7 +340,7 @@ def _ntc_cond_loop_inv(c, L):
 
 
 def _ntc_cond_loop_mod(c):
-    out = {}
+    out = _adj_mod(c, g_parents(c.pre, c.arg("self")))
     for f in ("_state", "_cancellation_time", "_probability", "_remaining_time"):
         out[c.pre.fld_arr(TASK, f)[0]] = ANY
     fr = c.run.frames[-1].env
